@@ -426,7 +426,7 @@ def check_enc(r, x, line, with_str, with_port, replay, wrapped=None):
             payload = b""
             okw = True
             for w in words:
-                m = re.match(rb"^=\?utf-8\?Q\?([!-<>-~]*)\?=$", w)
+                m = re.match(rb"^=\?utf-8\?Q\?([!-~]*)\?=$", w)      # RFC 2047 4.2: any printable but ? and SPACE; =XX escapes allowed
                 if not m or len(w) > 76 or b"?" in m.group(1) or b" " in m.group(1):
                     okw = False
                     break
